@@ -113,6 +113,7 @@ struct World {
   std::string check_with_passes() const;  // C08: every WITH evaluation pass is a declaration-order prefix ending at the first false
 };
 
+World* cur();  // the world being driven (LR_ clauses must not capture locals of the creation site)
 typedef E (*SiteFn)(World*, const Op&);
 SiteFn site_fn(int shape, int slot);
 
